@@ -179,3 +179,40 @@ func TestC05SetWhileReaderOpenPanics(t *testing.T) {
 		}
 	}
 }
+
+// A reader row answered by a key the transaction wrote itself is not validated either: a key inserted
+// concurrently between the previous row and the own key goes unnoticed when the scan stops there.
+func TestC05ReaderRowAnsweredByOwnWriteIsNotValidated(t *testing.T) {
+	st, err := Open(t.TempDir(), c05Opts())
+	if err != nil {
+		t.Fatal(err)
+	}
+	defer st.Close()
+	ctx := context.Background()
+	c05Commit(t, st, "k0", "0") // tx 1
+
+	tx, err := st.NewTx(ctx, DefaultTxOptions())
+	if err != nil {
+		t.Fatal(err)
+	}
+	if err := tx.Set([]byte("k5"), nil, []byte("own")); err != nil { // snapshot taken here
+		t.Fatal(err)
+	}
+	c05Commit(t, st, "k1", "other") // tx 2, after the snapshot
+
+	rd, err := tx.NewKeyReader(KeyReaderSpec{Prefix: []byte("k")})
+	if err != nil {
+		t.Fatal(err)
+	}
+	for _, want := range []string{"k0", "k5"} { // early termination after the own key
+		k, _, err := rd.Read(ctx)
+		if err != nil || string(k) != want {
+			t.Fatalf("unexpected row %s %v", k, err)
+		}
+	}
+	rd.Close()
+	hdr, err := tx.Commit(ctx)
+	if !errors.Is(err, ErrTxReadConflict) {
+		t.Fatalf("the scan returned k0, k5; at the commit point (after tx 2) it returns k0, k1, yet the tx was accepted as tx %d (err %v)", c05ID(hdr), err)
+	}
+}
